@@ -11,6 +11,7 @@ import vlib
 
 PID = "C14"
 CRATES = ("tcp", "http", "tls")
+VIA = 10000000
 
 
 def run(tier, v):
@@ -32,13 +33,20 @@ def run(tier, v):
                 elif tag == "REPLAY":
                     exp[obj["id"]] = (obj["exp"], obj["alt"], obj["cfg"])
                     f.write(json.dumps({"id": obj["id"], "cfg": obj["cfg"]}) + "\n")
+                    # the same configuration reached by other builder sequences (the side chosen after the other one had been chosen;
+                    # starting from Default instead of new()): what a filter admits depends on what it finally says, not on how it was built
+                    if any(x and x[0]["cs"] != x[0]["cd"] for x in (obj["cfg"]["ip"], obj["cfg"]["sub"])) or (obj["id"] % 5 == 0 and (obj["cfg"]["ip"] or obj["cfg"]["sub"])):
+                        for via in (1, 2):
+                            vid = obj["id"] + VIA * via
+                            exp[vid] = (obj["exp"], obj["alt"], dict(obj["cfg"], via=via))
+                            f.write(json.dumps({"id": vid, "cfg": dict(obj["cfg"], via=via)}) + "\n")
             # STAT is printed while evaluating ASSUME, i.e. before any REPLAY line
             r = vlib.tlc("MC_C14", pid=PID, workers=16 if tier == "thorough" else 8, tag_sink=sink,
                          env={"VERIF_TIER": tier, "VERIF_FAM": fam}, timeout=3000)
         if r.inv_violated:
             # the *definition* breaks one of its own laws: specification error, not a verdict on the code
             raise vlib.ToolError("Filter.tla violates its laws: %s" % r.inv_violated)
-        if len(exp) != stat["ncfg"]:
+        if len([i for i in exp if i < VIA]) != stat["ncfg"]:
             raise vlib.ToolError("expected %d vectors, TLC printed %d" % (stat["ncfg"], len(exp)))
         out_path = os.path.join(wd, "observed-%s.ndjson" % fam)
         vlib.run_hv("filter", vec_path, out_path)
